@@ -164,7 +164,7 @@ PROPS['C04'] = {
 PROPS['C11']['pkgs'] = ['h20', 'h30', 'h31', 'h40']
 PROPS['C12']['pkgs'] = ['h20', 'h30', 'h31', 'h40']
 PROPS['C12']['per_harness'] = {'h40': {'handler': 'fp_oracle'}, 'h20|h30|h31': {'handler': 'fp_tabulate'}}
-PROPS['C12']['bounds'] = 'none: all effective classes of v3.1 (3 scores), v2.0 and v3.0 (base, temporal) and all 15,116,544 effective classes of v4.0 (15 metrics)'
+PROPS['C12']['bounds'] = 'the whole finite domain, decided without truncation: all effective classes of v3.1 (3 scores), v2.0 and v3.0 (base, temporal) and all 15,116,544 effective classes of v4.0 (15 metrics)'
 PROPS['C13'] = {
     'level': 'model_checking',
     'pkgs': ['hcross'] + ALLV,
@@ -192,7 +192,7 @@ PROPS['C08'] = {
     'level': 'model_checking',
     'pkgs': ALLV,
     'text': '(a) Vector() equals the canonical serialisation of the object (reference serialiser written from the property text) on EVERY reachable object: both buffers are kept as sequences of conditional bytes and compared structurally, the conditions are proved pairwise equivalent by the solver - no length bound; (b) the object ParseVector returns holds exactly the values written in the string (the C06 lemmas on the shaped and element-structured inputs, run as part of this check); (a)+(b) give: parse-then-serialise is the canonical spelling of the input, for inputs within the parser bounds',
-    'bounds': '(a) none (all reachable objects); (b) the parser bounds of C01/C06. Idempotence and "canonical input is a fixpoint" follow from (a)+(b) and are not asserted separately',
+    'bounds': '(a) the whole finite domain (all reachable objects); (b) the parser bounds of C01/C06. Idempotence and "canonical input is a fixpoint" follow from (a)+(b) and are not asserted separately',
     'solvers': {'quick': ['z3'], 'thorough': ['z3', 'z3new']},
     'technique': 'SMT over the symbolically executed Vector()/lenVec/append code: structural comparison of append-only buffers, condition equivalences discharged by z3',
     'reuse': ['C08_', 'C06_ValuesShaped', 'C06_ValuesStruct'],
@@ -220,7 +220,7 @@ PROPS['C18'] = {
     'level': 'model_checking',
     'pkgs': ALLV,
     'text': 'documented error values: Get/Set on an unknown abbreviation return *ErrInvalidMetric with that abbreviation and Set with an illegal value ErrInvalidMetricValue (strings of any length, all reachable objects); ParseVector: wrong/missing header -> ErrInvalidCVSSHeader (v3, v4), and for strings with exactly one defect according to a reference single-defect classifier (written from the property text; strings with two or more defects are left unconstrained) the documented error with the right Abv',
-    'bounds': 'Get/Set: none. ParseVector: ' + PARSER_BOUNDS,
+    'bounds': 'Get/Set: the whole finite domain, strings of any length. ParseVector: ' + PARSER_BOUNDS,
     'solvers': {'quick': ['z3'], 'thorough': ['z3', 'z3new']},
     'timeout': {'quick': 900, 'thorough': 3600},
     'per_harness': dict(PARSER_PARAMS, **{'C18_Parse$': {'quick': {'skip': True}, 'thorough': {}}}),
@@ -233,7 +233,7 @@ PROPS['C02'] = {
     'pkgs': ALLV,
     'reuse': ['C08_Canonical', 'C01_AcceptShaped', 'C01_AcceptStruct', 'C06_ValuesShaped', 'C06_ValuesStruct', 'C07_Eq', 'C07_Set', 'C07_Zero'],
     'text': 'decided as the conjunction of solver-checked lemmas on the real code: (a) Vector(c) is the canonical serialisation of c for EVERY reachable object (C08_Canonical, no bound); (b) ParseVector accepts the canonical strings within the shaped-input bound (C01_AcceptShaped); (c) the parsed object returns on every Get the value written in the string (C06_ValuesShaped); (d) objects with equal Get values are == and every object reachable through Set/zero value satisfies the invariant (C07). (a)-(d) give ParseVector(Vector(c)) == c with equal Gets. A counterexample of any lemma is replayed natively',
-    'bounds': '(a), (d): none. (b), (c): canonical vectors whose optional part is at most TAIL_N bytes (quick: v2 6, v3 12, v4 6; thorough 12/18/12), i.e. objects with few defined optional metrics; objects with longer canonical spellings are outside the parser lemmas and hence outside the claim',
+    'bounds': '(a), (d): the whole finite domain. (b), (c): canonical vectors whose optional part is at most TAIL_N bytes (quick: v2 6, v3 12, v4 6; thorough 12/18/12) or whose optional elements have the lengths of one of the element-structured SHAPEs (STRUCT_SHAPES in gosmt/props.py; up to 12 elements), i.e. objects with few defined optional metrics or with one of those length patterns; objects with other canonical spellings are outside the parser lemmas and hence outside the claim',
     'solvers': {'quick': ['z3'], 'thorough': ['z3', 'z3new']},
     'timeout': {'quick': 900, 'thorough': 3600},
     'per_harness': dict(PARSER_PARAMS, **{'C08_Canonical': {'handler': 'groups_decide', 'ignore_kinds': ['growth']}}),
@@ -446,7 +446,8 @@ def finish(pid, tier, seed, results, exe, tmp, t0, log, write_evidence=True):
                 'unreproduced_models': unreproduced,
                 'assertions_vacuous_in_one_space': vacuous,
                 'known_findings_hit': [k.get('what') for k, _ in known_hits],
-                'exhaustive': False,
+                # true only for the checks whose domain is finite and decided completely (no length bound, no sampling)
+                'exhaustive': bool(cfg.get('exhaustive')) and n_unknown == 0 and n_sat == 0 and not inconclusive,
             },
             'assumptions': COMMON_ASSUMPTIONS + cfg.get('assumptions', []),
             'wall_s': round(wall, 2),
@@ -460,6 +461,9 @@ def finish(pid, tier, seed, results, exe, tmp, t0, log, write_evidence=True):
         (pid, tier, n_ob, n_unsat, n_sat, len(violations) + len(known_hits), len(known_hits), n_unknown, len(inconclusive), wall))
     return 1 if violations else 0
 
+
+for _p in ('C03', 'C04', 'C05', 'C07', 'C09', 'C10', 'C11', 'C12', 'C15', 'C16'):
+    PROPS[_p]['exhaustive'] = True
 
 NOT_APPLICABLE = {}
 for _p in ['C%02d' % i for i in range(1, 19)]:
